@@ -176,7 +176,7 @@ def gen():
     CONTRACT = ("The component sampler is rand's documented Uniform contract (K32: new panics unless lo < hi, new_inclusive unless lo <= hi; "
                 "sample is any v with lo <= v < hi resp. lo <= v <= hi), so every RNG stream and every conforming float sampler is covered")
 
-    def ends(T, incl, finite_only=True, hue_benign=True, unit=()):
+    def ends(T, incl, hue_benign=True, unit=(), concrete=False):
         """Declarations + assumptions for two symbolic end colours `lo`, `hi` over K32."""
         ty = T["ty"].format(F="K32")
         cmp = "<=" if incl else "<"
@@ -191,7 +191,9 @@ def gen():
                 la.append(f"{T['hue']}::new(K32(lo_hue))")
                 ha.append(f"{T['hue']}::new(K32(hi_hue))")
             else:
-                if a in unit:
+                if concrete:
+                    L[-1] = f"let lo_{a}: f32 = 0.0; let hi_{a}: f32 = 1.0;"
+                elif a in unit:
                     L.append(f"kani::assume(lo_{a} >= 0.0 && hi_{a} <= {unit[a]} && lo_{a} {cmp} hi_{a});")
                 else:
                     L.append(f"kani::assume(lo_{a}.is_finite() && hi_{a}.is_finite() && lo_{a} {cmp} hi_{a});")
@@ -250,27 +252,61 @@ def gen():
                   f"all finite f32 ends with lo.c {cmp} hi.c in every component and alpha; every sample the contract allows")
 
     # hue samplers
+    EXACT = ("Ends: every f32 in [-360, 720] degrees whose normal form (palette's into_positive_degrees) is exact - all of [0, 720] and the "
+             "negative ends that stay representable when 360 is added; the remaining negative ends are the separate *_rounded_ends obligation")
     for key, H in HUES:
         for incl in (False, True):
             kind = "new_inclusive" if incl else "new"
             cmp = "<=" if incl else "<"
+            if key == "rgbhue":
+                o.harness(f"c19_{key}_uniform_{kind}_on_arc_rounded_ends",
+                          f"{H}<K32>: as c19_{key}_uniform_{kind}_on_arc, for the ends in [-360, 0) whose f32 normal form is rounded (x + 360 not "
+                          f"representable, e.g. -1e-9 -> 360.0): the sampler is constructed without panic and the sample lies on the arc (tolerance "
+                          f"1.25e-4 degrees). {CONTRACT}",
+                          f"""
+                          let lo: f32 = kani::any();
+                          let hi: f32 = kani::any();
+                          kani::assume(lo >= -360.0 && hi <= 720.0 && lo {cmp} hi);
+                          kani::assume(!normalises_exactly(lo) || !normalises_exactly(hi));
+                          let mut rng = AnyRng;
+                          let u = Uniform::{kind}({H}::new(K32(lo)), {H}::new(K32(hi)));
+                          let s = u.sample(&mut rng).into_raw_degrees().0;
+                          kani::cover!(true);
+                          assert!(on_arc(lo, hi, s));
+                          """, [f"<palette::hues::Uniform{H.split('::')[-1]}<T> as UniformSampler>::{{{kind}, sample}}", f"{H}::into_positive_degrees"],
+                          f"all f32 ends with -360 <= lo {cmp} hi <= 720 degrees, at least one with a rounded normal form; every sample the contract allows")
+            o.harness(f"c19_{key}_uniform_{kind}_in_plain_arc",
+                      f"{H}<K32>: for ends 0 <= lo {cmp} hi < 360 degrees (arcs that do not wrap; the ends are their own normal forms) "
+                      f"Uniform::{kind}(lo, hi).sample(rng) is a hue in [lo, hi], exactly (no tolerance). {CONTRACT}",
+                      f"""
+                      let lo: f32 = kani::any();
+                      let hi: f32 = kani::any();
+                      kani::assume(lo >= 0.0 && hi < 360.0 && lo {cmp} hi);
+                      let mut rng = AnyRng;
+                      let u = Uniform::{kind}({H}::new(K32(lo)), {H}::new(K32(hi)));
+                      let s = u.sample(&mut rng).into_raw_degrees().0;
+                      kani::cover!(true);
+                      assert!(in_plain_arc(lo, hi, s));
+                      """, [f"<palette::hues::Uniform{H.split('::')[-1]}<T> as UniformSampler>::{{{kind}, sample}}", f"{H}::into_positive_degrees"],
+                      f"all f32 ends with 0 <= lo {cmp} hi < 360 degrees; every sample the contract allows")
             o.harness(f"c19_{key}_uniform_{kind}_on_arc",
                       f"{H}<K32>: Uniform::{kind}(lo, hi).sample(rng) lies on the arc that runs from the hue lo in the direction of increasing angle to "
                       f"the hue hi - including arcs that wrap through 0/360 degrees, ends more than a turn apart (same hue: the whole circle)"
                       f"{' and equal ends (the single hue)' if incl else ''}. Positions are compared modulo 360 with an absolute tolerance of "
-                      f"1.25e-4 degrees (2 ulp of 720: the rounding of palette's own normalisation, C11). {CONTRACT}",
+                      f"1.25e-4 degrees (2 ulp of 720: the rounding of palette's own arithmetic on the normal forms). {EXACT}. {CONTRACT}",
                       f"""
                       let lo: f32 = kani::any();
                       let hi: f32 = kani::any();
                       kani::assume(lo >= -360.0 && hi <= 720.0 && lo {cmp} hi);
+                      kani::assume(normalises_exactly(lo) && normalises_exactly(hi));
                       let mut rng = AnyRng;
                       let u = Uniform::{kind}({H}::new(K32(lo)), {H}::new(K32(hi)));
-                      let s = u.sample(&mut rng).into_positive_degrees().0;
+                      let s = u.sample(&mut rng).into_raw_degrees().0;
                       kani::cover!(true);
                       assert!(on_arc(lo, hi, s));
                       """, [f"<palette::hues::Uniform{H.split('::')[-1]}<T> as UniformSampler>::{{{kind}, sample}}", f"{H}::into_positive_degrees"],
-                      f"all f32 ends with -360 <= lo {cmp} hi <= 720 degrees; every sample the contract allows",
-                      thorough=(key not in ("rgbhue", "oklabhue")))
+                      f"all f32 ends with -360 <= lo {cmp} hi <= 720 degrees and exact normal form; every sample the contract allows",
+                      thorough=True)
 
     # cylinder and cone samplers (abstract power/root pairs)
     POWERS = ("x * x / powi(2) / sqrt and powi(3) / cbrt are an arbitrary strictly increasing function on [0, inf) with f(0) = 0, f(1) = 1 and "
@@ -293,7 +329,7 @@ def gen():
                       f"{ty}: Uniform::{kind}(lo, hi).sample(rng) has every non-hue component between the corresponding components of lo and hi "
                       f"({macro}). {CONTRACT}; {POWERS}",
                       f"""
-                      abstract_powers(true);
+                      abstract_powers({'true' if T in CYL else 'false'});
                       {decl}
                       let mut rng = AnyRng;
                       let u = Uniform::{kind}(lo, hi);
@@ -304,26 +340,41 @@ def gen():
                       + (["palette::random_sampling::{invert_hsv_sample, sample_hsv}"] if T in CONE else []),
                       f"{dom}; hue ends 0 <= lo {cmp} hi <= 359 degrees; every sample the contracts allow", unwind=6)
         # hue through the colour sampler
-        ty, decl = ends(T, False, hue_benign=False, unit=({rad: "f32::MAX"} if T in CYL else {"saturation": "1.0", "value": "1.0"}))
-        o.harness(f"c19_{T['key']}_uniform_new_hue_on_arc",
-                  f"{ty}: the hue of Uniform::new(lo, hi).sample(rng) lies on the arc from the hue of lo to the hue of hi (the colour sampler forwards "
-                  f"the hue ends to the hue sampler; arc and tolerance as in the hue sampler obligations). {CONTRACT}; {POWERS}",
+        ty, decl = ends(T, False, hue_benign=True, concrete=True)
+        decl = decl.replace("hi_hue <= 359.0", "hi_hue < 360.0")
+        uname = f"<Uniform{T['ty'].split('<')[0].split('::')[-1]}<T> as UniformSampler>::{{new, sample}}"
+        o.harness(f"c19_{T['key']}_uniform_new_hue_in_plain_arc",
+                  f"{ty}: for hue ends 0 <= lo < hi < 360 degrees the hue of Uniform::new(lo, hi).sample(rng) lies in [lo, hi], exactly (the colour "
+                  f"sampler forwards the hue ends to the hue sampler; the other components of the ends are 0 and 1). {CONTRACT}",
                   f"""
-                  abstract_powers(true);
                   {decl}
                   let mut rng = AnyRng;
                   let u = Uniform::new(lo, hi);
-                  let s = u.sample(&mut rng).hue.into_positive_degrees().0;
+                  let s = u.sample(&mut rng).hue.into_raw_degrees().0;
                   kani::cover!(true);
-                  assert!(on_arc(lo_hue, hi_hue, s));
-                  """, [f"<Uniform{T['ty'].split('<')[0].split('::')[-1]}<T> as UniformSampler>::{{new, sample}}"],
-                  "hue ends -360 <= lo < hi <= 720 degrees; other components as in the _between obligation", unwind=6,
-                  thorough=(T["key"] not in ("lch", "hsv")))
+                  assert!(in_plain_arc(lo_hue, hi_hue, s));
+                  """, [uname], "all f32 hue ends with 0 <= lo < hi < 360 degrees; other components of the ends 0 and 1; every sample the contract allows",
+                  unwind=6)
+        if T["key"] in ("lch", "hsv"):
+            ty, decl = ends(T, False, hue_benign=False, concrete=True)
+            o.harness(f"c19_{T['key']}_uniform_new_hue_on_arc",
+                      f"{ty}: the hue of Uniform::new(lo, hi).sample(rng) lies on the arc from the hue of lo to the hue of hi, including wrapping arcs "
+                      f"(arc, tolerance and ends as in the hue sampler *_on_arc obligations; the other components of the ends are 0 and 1). {CONTRACT}",
+                      f"""
+                      {decl}
+                      kani::assume(normalises_exactly(lo_hue) && normalises_exactly(hi_hue));
+                      let mut rng = AnyRng;
+                      let u = Uniform::new(lo, hi);
+                      let s = u.sample(&mut rng).hue.into_raw_degrees().0;
+                      kani::cover!(true);
+                      assert!(on_arc(lo_hue, hi_hue, s));
+                      """, [uname], "all f32 hue ends with -360 <= lo < hi <= 720 degrees and exact normal form; other components of the ends 0 and 1; "
+                      "every sample the contract allows", unwind=6, thorough=True)
 
     # ---- (b') rand's real f32 Uniform code, concrete ends ------------------------------------------------------------------
     REAL = [
         ("rgb_unit", CART[0], ["0.0", "0.0", "0.0"], ["1.0", "1.0", "1.0"]),
-        ("rgb_inner", CART[0], ["0.25", "0.1", "0.7"], ["0.75", "0.9", "0.70001"]),
+        ("rgb_inner", CART[0], ["0.25", "0.1", "0.5"], ["0.75", "0.9", "1.0"]),
         ("luma_unit", CART[1], ["0.0"], ["1.0"]),
         ("lab_box", CART[4], ["0.0", "-128.0", "-128.0"], ["100.0", "127.0", "127.0"]),
         ("xyz_d65", CART[2], ["0.0", "0.0", "0.0"], ["0.95047", "1.0", "1.08883"]),
@@ -353,7 +404,7 @@ def gen():
                   f"""
                   let mut rng = AnyRng;
                   let u = Uniform::{kind}(palette::RgbHue::new(10.0f32), palette::RgbHue::new(20.0f32));
-                  let s = u.sample(&mut rng).into_positive_degrees();
+                  let s = u.sample(&mut rng).into_raw_degrees();
                   kani::cover!(true);
                   assert!(on_arc(10.0, 20.0, s));
                   """, [f"<palette::hues::UniformRgbHue<f32> as UniformSampler>::{{{kind}, sample}}", "rand::distributions::uniform::UniformFloat<f32>"],
